@@ -10,6 +10,44 @@ import time
 import traceback
 
 _READY = False
+_RSS_MARK = None
+RSS_GROWTH_MB = 512
+
+
+def _rss_mb() -> float:
+    try:
+        with open("/proc/self/statm") as fh:
+            return int(fh.read().split()[1]) * os.sysconf("SC_PAGE_SIZE") / 2**20
+    except Exception:
+        return 0.0
+
+
+def _bound_memory() -> None:
+    """Every run jit-compiles fresh closures, and jax keeps the executables; in long batches
+    that is several GB per worker.  When the resident set has grown by RSS_GROWTH_MB since the
+    last mark, drop jax's compilation caches between runs (never inside one: the event log of a
+    run does not depend on what is cached, which the determinism self-test checks with different
+    worker counts)."""
+    global _RSS_MARK
+    now = _rss_mb()
+    if _RSS_MARK is None:
+        _RSS_MARK = now
+        return
+    if now - _RSS_MARK < RSS_GROWTH_MB:
+        return
+    import gc
+
+    import jax
+
+    jax.clear_caches()
+    gc.collect()
+    try:
+        import ctypes
+
+        ctypes.CDLL("libc.so.6").malloc_trim(0)
+    except Exception:
+        pass
+    _RSS_MARK = _rss_mb()
 
 
 def init_worker(liesel_src: str, verif_root: str) -> None:
@@ -74,6 +112,7 @@ def _exec(mod, plan: dict) -> dict:
     finally:
         faulthandler.cancel_dump_traceback_later()
     res["wall"] = time.monotonic() - t0
+    _bound_memory()
     return res
 
 
